@@ -327,6 +327,29 @@ func (f *fakeAPI) RoundTrip(req *http.Request) (*http.Response, error) {
 	sv := f.w.services[0]
 	body := "[]"
 	j := func(v any) string { b, _ := json.Marshal(v); return string(b) }
+	// listings are answered by page when the client asks for pages (page / per_page), completely otherwise
+	paged := func(l []map[string]any) []map[string]any {
+		q := req.URL.Query()
+		pp, err1 := strconv.Atoi(q.Get("per_page"))
+		if err1 != nil || pp <= 0 {
+			if q.Get("page") == "" || q.Get("page") == "1" {
+				return l
+			}
+			return []map[string]any{}
+		}
+		pg, err2 := strconv.Atoi(q.Get("page"))
+		if err2 != nil || pg < 1 {
+			pg = 1
+		}
+		lo, hi := (pg-1)*pp, pg*pp
+		if lo > len(l) {
+			lo = len(l)
+		}
+		if hi > len(l) {
+			hi = len(l)
+		}
+		return l[lo:hi]
+	}
 	hold := func(kind string, idx, n int) {
 		f.mu.Lock()
 		defer f.mu.Unlock()
@@ -361,7 +384,7 @@ func (f *fakeAPI) RoundTrip(req *http.Request) (*http.Response, error) {
 			}
 		}
 		hold("dict", i, len(sv.Dicts))
-		body = j(l)
+		body = j(paged(l))
 	case strings.HasSuffix(p, "/version/3/acl"):
 		l := []map[string]any{}
 		for i, r := range sv.Acls {
@@ -384,7 +407,7 @@ func (f *fakeAPI) RoundTrip(req *http.Request) (*http.Response, error) {
 			}
 		}
 		hold("acl", i, len(sv.Acls))
-		body = j(l)
+		body = j(paged(l))
 	case strings.HasSuffix(p, "/version/3/backend"):
 		l := []map[string]any{}
 		for _, r := range f.w.backends {
